@@ -655,27 +655,39 @@ func (x *Exec) dischargeAll(obls []*Obligation, dir string, timeoutS int, par in
 		}()
 	}
 	wg.Wait()
-	// Second chance, one at a time with the machine to itself and twice the budget: an obligation that no solver
+	// Second chance, with the machine (almost) to itself and twice the budget: an obligation that no solver
 	// answered while up to par*10 solver processes were competing for the cores is not yet a failure (solver time
-	// limits are wall-clock). At most 12 obligations are retried, so a genuinely broken tree still fails promptly.
-	retried := 0
+	// limits are wall-clock). At most 6 obligations are retried, two at a time, so a genuinely broken tree still fails promptly.
+	var again []int
 	for i, o := range obls {
-		if o.Status != "unknown" || scripts[i] == "" || retried >= 12 {
-			continue
-		}
-		retried++
-		r := raceSolvers2(scripts[i], grounds[i], noqs[i], muls[i], dir, o.Name+".retry", 2*timeoutS)
-		if r.status == "unsat" || r.status == "sat" {
-			o.Solver = r.solver + " (retry)"
-			o.Seconds += r.seconds
-			o.Output = r.output
-			if r.status == "unsat" {
-				o.Status = "discharged"
-			} else {
-				o.Status = "failed"
-			}
+		if o.Status == "unknown" && scripts[i] != "" && len(again) < 6 {
+			again = append(again, i)
 		}
 	}
+	sem2 := make(chan struct{}, 2)
+	var wg2 sync.WaitGroup
+	for _, i := range again {
+		i := i
+		o := obls[i]
+		wg2.Add(1)
+		sem2 <- struct{}{}
+		go func() {
+			defer wg2.Done()
+			defer func() { <-sem2 }()
+			r := raceSolvers2(scripts[i], grounds[i], noqs[i], muls[i], dir, o.Name+".retry", 2*timeoutS)
+			if r.status == "unsat" || r.status == "sat" {
+				o.Solver = r.solver + " (retry)"
+				o.Seconds += r.seconds
+				o.Output = r.output
+				if r.status == "unsat" {
+					o.Status = "discharged"
+				} else {
+					o.Status = "failed"
+				}
+			}
+		}()
+	}
+	wg2.Wait()
 }
 
 // queryModel re-runs z3 with get-value for the given terms; returns values by index.
